@@ -198,7 +198,7 @@ func cliLine(cc cliCase, reqText string, top *jn, conns [][]reaction, replyMsgs 
 func init() {
 	props["C15"] = &prop{
 		parallel: 8,
-		rule:     "the e3dc binary built from the working tree, run in an empty scratch directory with a clean environment against a scripted TCP device: request texts {valid in all notations, malformed, empty, []} x output {json, jsonsimple, jsonmerged, default, unknown} x split on/off x device behaviour {answer, refuse authentication, close, garble, bad CRC} x request as argument / -file / stdin / missing / unreadable file x .config present/absent x each required flag missing x -help, -version, unknown flag, bad flag value, unreadable explicit config; observable = exit status, stdout (exactly one JSON document + newline, or empty), stderr (non-empty, no panic trace), the requests the device received per connection; non-trivial = the run gets past flag checking; distinct by case line",
+		rule:     "the e3dc binary built from the working tree, run in an empty scratch directory with a clean environment against a scripted TCP device: request texts {valid in all notations, malformed, empty, []} x output {json, jsonsimple, jsonmerged, default, unknown} x split on/off x device behaviour {answer, refuse authentication, close, garble, bad CRC} x request as argument / -file / stdin / missing / unreadable file x .config present/absent x each required flag missing x -help, -version, unknown flag, bad flag value, unreadable explicit config; observable = exit status, stdout (exactly one JSON document, or empty), stderr (non-empty, no panic trace), the requests the device received per connection; non-trivial = the run gets past flag checking; distinct by case line",
 		gen: func(tier string, r *rng, emit func(string)) {
 			base := func() cliCase {
 				return cliCase{host: true, user: true, pass: true, key: true, reqsrc: "arg", outfmt: []string{"json", "jsonsimple", "jsonmerged", "default"}[r.intn(4)], cfg: "none"}
@@ -374,7 +374,8 @@ func init() {
 				return ""
 			}
 			if kv["status"] == "0" {
-				if len(out) == 0 || out[len(out)-1] != '\n' || !json.Valid(out) || bytes.Count(out, []byte("\n")) != 1 {
+				// exactly one JSON value, however it is laid out (json.Valid accepts one value surrounded by white space only)
+				if len(bytes.TrimSpace(out)) == 0 || !json.Valid(out) {
 					return "status 0 without exactly one JSON document on standard output"
 				}
 			} else {
